@@ -189,6 +189,77 @@ def nest_payload(depth, rnd, kinds='AF', leaf=b'V'):
     return v
 
 
+def nest_payload_mixed(depth, rnd, kinds='AF'):
+    """Like nest_payload, but every level also holds siblings of OTHER types
+    after (and sometimes before) the nested container: an array level is
+    [inner, scalar, ...], a table level {k: inner, s: scalar}.  A decoder
+    with a homogeneous fast path that falls back, or one that re-decodes a
+    level when a sibling surprises it, repeats the work of all levels below."""
+    sib = [b'I\x00\x01\x00\x00', b't\x01', b'S\x00\x00\x00\x01x', b'V',
+           b'b\x07', b'd' + struct.pack('>d', 1.5), b's\x01\x00',
+           b'l' + struct.pack('>q', -5), b'A\x00\x00\x00\x00']
+    v = b'V'
+    for i in range(depth):
+        k = kinds[i % len(kinds)]
+        a, b = rnd.choice(sib), rnd.choice(sib)
+        if k == 'A':
+            inner = (a + v + b) if i % 3 == 2 else (v + b)
+            v = b'A' + struct.pack('>I', len(inner)) + inner
+        else:
+            inner = b'\x01k' + v + b'\x01s' + b
+            if i % 3 == 2:
+                inner = b'\x01a' + a + inner
+            v = b'F' + struct.pack('>I', len(inner)) + inner
+    return v
+
+
+def deep_mixed_frames(rnd, depth):
+    for kinds in ('A', 'F', 'AF', 'AAF'):
+        v = nest_payload_mixed(depth - 1, rnd, kinds)
+        tab = b'\x01d' + v
+        table = struct.pack('>I', len(tab)) + tab
+        p = struct.pack('>HHBB', 10, 10, 0, 9) + table + \
+            struct.pack('>I', 5) + b'PLAIN' + struct.pack('>I', 5) + b'en_US'
+        yield envelope(1, 0, p), 'deep-mixed:%s:%d' % (kinds, depth)
+        h = struct.pack('>HHQH', 60, 0, 0, 0x2000) + table
+        yield envelope(2, 1, h), 'deep-mixed:%s:%d' % (kinds, depth)
+
+
+FOREIGN_GREETINGS = [
+    b'HTTP/1.1 400 Bad Request\r\nConnection: close\r\n\r\n',
+    b'HTTP/1.0 200 OK\n\n', b'HTTP/', b'HTTP/2', b'GET / HTTP/1.1\r\n\r\n',
+    b'SSH-2.0-OpenSSH_9.6\r\n', b'\x16\x03\x01\x02\x00\x01\x00\x01\xfc\x03\x03',
+    b'\x15\x03\x03\x00\x02\x02\x46', b'<html><body>nope</body></html>',
+    b'220 mail.example.org ESMTP\r\n', b'+OK ready\r\n', b'-ERR\r\n',
+    b'* OK IMAP4rev1\r\n', b'{"error": "not amqp"}', b'RFB 003.008\n',
+    b'PROXY TCP4 192.0.2.1 192.0.2.2 5672 5672\r\n', b'\x00\x00\x00\x00',
+    b'AMQP\x03\x01\x00\x00', b'AMQP\x02\x01\x00\x00', b'AMQP\x00\x01\x00\x00',
+    b'AMQP\x01\x01\x08\x00', b'AMQP\x01\x01\x00\x09', b'AMQP\x01\x01\x09\x01',
+    b'amqp\x00\x00\x09\x01', b'AMQPS', b'\xef\xbb\xbfAMQP\x00\x00\x09\x01',
+    b'STOMP\n', b'CONNECTED\nversion:1.2\n\n\x00', b'MQTT', b'\x10\x0c\x00\x04MQTT',
+]
+
+
+def foreign_greetings(rnd):
+    """What a peer that is not (this dialect of) AMQP sends first: other
+    protocols' greetings, other AMQP revisions' headers - complete, cut at
+    every length, with and without line ends - and 'AMQP' followed by every
+    combination of a few small octets at every length 4..9."""
+    for g in FOREIGN_GREETINGS:
+        for k in range(len(g) + 1):
+            yield g[:k], 'foreign-greeting'
+        yield g.replace(b'\r\n', b'\n'), 'foreign-greeting'
+        yield g.replace(b'\r\n', b''), 'foreign-greeting'
+        yield g + rnd.randbytes(rnd.randint(1, 30)), 'foreign-greeting'
+    small = [0, 1, 2, 3, 8, 9, 10, 255]
+    for a in small:
+        for b in small:
+            for c in small:
+                full = b'AMQP' + bytes([a, b, c, rnd.choice(small)]) + b'\xce'
+                for k in range(4, 10):
+                    yield full[:k], 'amqp-prefix'
+
+
 def deep_frames(rnd, depth, kinds='AF'):
     """Frames whose table argument nests `depth` deep: Connection.Start
     (method) and a content header with a headers table."""
